@@ -22,6 +22,28 @@ fn quire_states() -> std::sync::Arc<Vec<[u64; 8]>> {
             let h = W512::from_shifted(1, j / 2).unwrap();
             v.extend([p.add(h), p.sub(h).neg()]);
         }
+        if j >= 3 {
+            // tie + one far bit: leading bit, a guard bit d1 places below it, and a lone sticky bit d2 places
+            // below the leading bit (just below the guard, around the 64-bit window edge, at the very bottom)
+            for d1 in 1..=31u32.min(j) {
+                let g = W512::from_shifted(1, j - d1).unwrap();
+                let base = p.add(g);
+                v.push(base);
+                v.push(base.neg());
+                for d2 in [d1 + 1, d1 + 2, 33, 34, 62, 63, 64, 65, 66, 96, 127, 128, 129, j] {
+                    if d2 > d1 && d2 <= j {
+                        let t = W512::from_shifted(1, j - d2).unwrap();
+                        v.push(base.add(t));
+                        v.push(base.add(t).neg());
+                        // with an odd kept fraction as well
+                        if d1 >= 2 {
+                            let odd = W512::from_shifted(1, j - d1 + 1).unwrap();
+                            v.push(base.add(odd).add(t));
+                        }
+                    }
+                }
+            }
+        }
         if j >= 30 {
             // a guard/sticky pattern 27..33 bits below the leading bit
             for d in [27u32, 28, 29, 30, 31, 32, 33] {
